@@ -25,7 +25,7 @@ Plan gen_c09(uint64_t seed, int tier)
   fix_timescale(p);
   int nthreads = static_cast<int>(r.range(1, 2));
   p.threads.resize(static_cast<size_t>(nthreads));
-  size_t const cap = fi.max_cap;
+  size_t const cap = fi.reach_cap();
   for (int t = 0; t < nthreads; ++t)
   {
     auto& ops = p.threads[static_cast<size_t>(t)];
@@ -88,7 +88,7 @@ Verdict judge_c09(Plan const& p, History const& h, RunInfoLite const& ri)
   uint64_t near_cap = 0, blocked_notices = 0;
   for (auto const& kv : m.issued)
   {
-    if (encoded_size_of(p, kv.first) * 16 >= fi.max_cap * 15)
+    if (encoded_size_of(p, kv.first) * 16 >= fi.reach_cap() * 15)
     {
       ++near_cap;
     }
@@ -110,13 +110,13 @@ Verdict judge_c09(Plan const& p, History const& h, RunInfoLite const& ri)
       {
         int64_t id = static_cast<int64_t>(t) * 1000000 + st.op_index;
         size_t sz = encoded_size_of(p, id);
-        if (sz <= fi.max_cap && !fi.dropping)
+        if (sz <= fi.reach_cap() && !fi.dropping)
         {
           return violation("blocked_log_call_never_resumes",
                            "thread " + std::to_string(t) + " is still inside the log call of id " + std::to_string(id) +
-                             " (encoded size " + std::to_string(sz) + ", capacity " + std::to_string(fi.max_cap) +
+                             " (encoded size " + std::to_string(sz) + ", capacity " + std::to_string(fi.reach_cap()) +
                              ") after the fair phase: " + ri.where,
-                           {{"size_within_5pct_of_capacity", sz * 100 >= fi.max_cap * 95 ? "1" : "0"}});
+                           {{"size_within_5pct_of_capacity", sz * 100 >= fi.reach_cap() * 95 ? "1" : "0"}});
         }
       }
     }
@@ -137,13 +137,13 @@ Verdict judge_c09(Plan const& p, History const& h, RunInfoLite const& ri)
         {
           int64_t id = static_cast<int64_t>(t) * 1000000 + static_cast<int64_t>(i);
           auto it = m.issued.find(id);
-          if (it != m.issued.end() && it->second.result == 0 && encoded_size_of(p, id) <= fi.max_cap)
+          if (it != m.issued.end() && it->second.result == 0 && encoded_size_of(p, id) <= fi.reach_cap())
           {
             size_t sz = encoded_size_of(p, id);
             return violation("fitting_statement_dropped_on_empty_queue",
                              "id " + std::to_string(id) + " (encoded size " + std::to_string(sz) + ", capacity " +
-                               std::to_string(fi.max_cap) + ") was rejected although the queue was empty and the backend idle",
-                             {{"size_within_5pct_of_capacity", sz * 100 >= fi.max_cap * 95 ? "1" : "0"}});
+                               std::to_string(fi.reach_cap()) + ") was rejected although the queue was empty and the backend idle",
+                             {{"size_within_5pct_of_capacity", sz * 100 >= fi.reach_cap() * 95 ? "1" : "0"}});
           }
           v.probes["dropping_checked_on_empty_queue"]++;
         }
